@@ -98,7 +98,7 @@ class BaseResponse:
         self._ranges = []
         self.__done = False
         self._start = 0
-        self._end = 0
+        self._end = None     # last byte position (inclusive) or None
         self._content_length = 0
         self._units = None
 
@@ -265,21 +265,19 @@ class BaseResponse:
             if self.__status_code == HTTP_OK:
                 if self._ranges and self._units == "bytes":
                     del self.__headers['Accept-Ranges']
-                    content_range = ContentRange(
-                            end=self.content_length-1,
-                            full=self._content_length)
-                    self._start, self._end = self.ranges[0]
-                    if self._start is None and self._content_length:
-                        self._end = min(self._content_length, self._end)
-                        self._start = self._content_length - self._end
-                        self._end = None
-                    content_range.start = self._start
-                    if self._end and self._content_length:
-                        self._end = min(self._content_length-1, self._end)
-                        content_range.end = self._end
-                        self._content_length = self._end - self._start + 1
-                    elif self._content_length:
-                        self._content_length -= self._start
+                    full = self._content_length
+                    start, end = self.ranges[0]
+                    if start is None:   # suffix range: last `end` bytes
+                        start = full - min(full, end)
+                        end = full - 1
+                    elif end is None or end >= full:
+                        end = full - 1
+                    content_range = ContentRange(start, end, full)
+                    if full and start <= end:
+                        self._start, self._end = start, end
+                        self._content_length = end - start + 1
+                    else:
+                        self._content_length = 0
                     if self._content_length:
                         self.status_code = HTTP_PARTIAL_CONTENT
                         self.__headers.add("Content-Range", str(content_range))
@@ -368,7 +366,7 @@ class Response(BaseResponse):
 
     def __end_of_response__(self):
         self.__buffer.seek(self._start)
-        if self._end:
+        if self._end is not None:
             return IBytesIO(self.__buffer.read(self._end - self._start + 1))
         return self.__buffer
 
@@ -481,9 +479,9 @@ class FileObjResponse(BaseResponse):
                          headers=headers,
                          status_code=status_code)
         self.__file = file_obj
+        self.__pos = 0
         if file_obj.seekable():
             self.__pos = file_obj.tell()
-            self._start = self.__pos
         try:
             self._content_length = \
                     fstat(file_obj.fileno()).st_size - self.__pos
@@ -516,8 +514,8 @@ class FileObjResponse(BaseResponse):
         for returning right value to wsgi server.
         """
         if self.__file.seekable():
-            self.__file.seek(self._start)
-            if self._end:
+            self.__file.seek(self.__pos + self._start)
+            if self._end is not None:
                 return IBytesIO(self.__file.read(self._end - self._start + 1))
         return self.__file
 
@@ -585,13 +583,13 @@ class GeneratorResponse(BaseResponse):
             start = 0
             if pos < self._start:
                 start = self._start - pos
-            if self._end and (pos+length) > self._end:
+            if self._end is not None and (pos+length) > self._end:
                 end = (self._end + 1) - pos
             pos += length
             yield data[start:end]
 
             # is enough
-            if self._end and pos > self._end:
+            if self._end is not None and pos > self._end:
                 return b''
         return b''
 
